@@ -171,7 +171,7 @@ func c08Text(c *fw.Ctx, fam string, idx int, text string) {
 			}
 			// the same through the real context on a real file (read - parse - reconcile nothing - write), for every
 			// text with bytes outside ASCII and on a fixed stride of the others
-			if len(rs) > 0 && (idx%8 == 0 || !isASCII(text)) {
+			if len(rs) > 0 && (idx%8 == 0 || !isASCII(text) || fam == "TRAIL") {
 				if why := c08NoopFile(text, rs); why != "" {
 					c.Violation("noop-reconcile-file", cs(), why)
 					return
